@@ -427,6 +427,8 @@ func partialIfThenElse(env Env, v ast.NodeTypeIfThenElse) (ast.IsNode, error) {
 	ifNode, ifErr := partial(env, v.If)
 	switch {
 	case errors.Is(ifErr, errVariable):
+		// the node that comes with errVariable has the variable inlined: keep the original
+		ifNode = v.If
 	case ifErr != nil:
 		return nil, ifErr
 	case isNonBoolValue(ifNode):
@@ -439,13 +441,17 @@ func partialIfThenElse(env Env, v ast.NodeTypeIfThenElse) (ast.IsNode, error) {
 	thenNode, thenErr := partial(env, v.Then)
 	if errors.Is(thenErr, errIgnore) {
 		return nil, thenErr
-	} else if thenErr != nil && !errors.Is(thenErr, errVariable) {
+	} else if errors.Is(thenErr, errVariable) {
+		thenNode = v.Then
+	} else if thenErr != nil {
 		thenNode = extError(thenErr)
 	}
 	elseNode, elseErr := partial(env, v.Else)
 	if errors.Is(elseErr, errIgnore) {
 		return nil, elseErr
-	} else if elseErr != nil && !errors.Is(elseErr, errVariable) {
+	} else if errors.Is(elseErr, errVariable) {
+		elseNode = v.Else
+	} else if elseErr != nil {
 		elseNode = extError(elseErr)
 	}
 	return ast.NodeTypeIfThenElse{If: ifNode, Then: thenNode, Else: elseNode}, nil
@@ -455,6 +461,8 @@ func partialAnd(env Env, v ast.NodeTypeAnd) (ast.IsNode, error) {
 	left, leftErr := partial(env, v.Left)
 	switch {
 	case errors.Is(leftErr, errVariable):
+		// the node that comes with errVariable has the variable inlined: keep the original
+		left = v.Left
 	case leftErr != nil:
 		return nil, leftErr
 	case isNonBoolValue(left):
@@ -471,7 +479,9 @@ func partialAnd(env Env, v ast.NodeTypeAnd) (ast.IsNode, error) {
 	right, rightErr := partial(env, v.Right)
 	if errors.Is(rightErr, errIgnore) {
 		return nil, rightErr
-	} else if rightErr != nil && !errors.Is(rightErr, errVariable) {
+	} else if errors.Is(rightErr, errVariable) {
+		right = v.Right
+	} else if rightErr != nil {
 		right = extError(rightErr)
 	}
 	return ast.NodeTypeAnd{BinaryNode: ast.BinaryNode{Left: left, Right: right}}, nil
@@ -481,6 +491,8 @@ func partialOr(env Env, v ast.NodeTypeOr) (ast.IsNode, error) {
 	left, leftErr := partial(env, v.Left)
 	switch {
 	case errors.Is(leftErr, errVariable):
+		// the node that comes with errVariable has the variable inlined: keep the original
+		left = v.Left
 	case leftErr != nil:
 		return nil, leftErr
 	case isNonBoolValue(left):
@@ -497,7 +509,9 @@ func partialOr(env Env, v ast.NodeTypeOr) (ast.IsNode, error) {
 	right, rightErr := partial(env, v.Right)
 	if errors.Is(rightErr, errIgnore) {
 		return nil, rightErr
-	} else if rightErr != nil && !errors.Is(rightErr, errVariable) {
+	} else if errors.Is(rightErr, errVariable) {
+		right = v.Right
+	} else if rightErr != nil {
 		right = extError(rightErr)
 	}
 	return ast.NodeTypeOr{BinaryNode: ast.BinaryNode{Left: left, Right: right}}, nil
